@@ -39,6 +39,8 @@ def gen(rng, i, tier):
     for p, d in hsm.all_defs(c['machine']):
         if not d['exit']:
             d['exit'] = [fresh()]
+        if not d['enter']:
+            d['enter'] = [fresh()]
         for e, ts in d['events']:
             for t in ts:
                 if not t['prepare']:
@@ -106,6 +108,7 @@ def oracle(case, obs):
     by_prep = {t['prep']: t for t in trs}
     by_before = {t['before']: t for t in trs}
     defs = {tuple(p): d for p, d in hsm.all_defs(case['machine'])}
+    enter_owner = {d['enter'][0]: p for p, d in defs.items() if d['enter']}
     cfg = obs[1]
     for si, ((k, e, a), (items, res, cfg_after)) in enumerate(zip(case['history'], obs[2])):
         start_nodes = set(hsm.forest_nodes(cfg))
@@ -114,6 +117,7 @@ def oracle(case, obs):
             if t['event'] == e:
                 declaring.setdefault(t['src'], []).append(t)
         offered = []                   # [src, scope, [idx...], executed]
+        entered_now = set()            # states (re-)entered during this event are not owed an offer
         executed_sources = []
         for it in items:
             slot, cb = it[0], it[1]
@@ -133,10 +137,13 @@ def oracle(case, obs):
                             return 'call %d: V3b %r offered although %r already executed a transition' % (si, t['src'], s_exec)
                     # V3 innermost first (within what was active at that moment)
                     for q, tl in declaring.items():
-                        if q != t['src'] and q[:len(t['src'])] == t['src'] and q in seen:
+                        if q != t['src'] and q[:len(t['src'])] == t['src'] and q in seen and q in start_nodes \
+                                and q not in entered_now:
                             if not any(o[0] == q for o in offered):
                                 return 'call %d: V3 ancestor %r offered before its active descendant %r' % (si, t['src'], q)
                     offered.append([t['src'], t['scope'], [t['idx']], False])
+            elif slot == 7 and cb in enter_owner:
+                entered_now.add(enter_owner[cb])
             elif slot == 5 and cb in by_before and by_before[cb]['event'] == e:
                 t = by_before[cb]
                 if not offered or offered[-1][0] != t['src']:
